@@ -88,6 +88,14 @@ mutual
     | c :: cs => countInst kind c + countInstList kind cs
 end
 
+/-- a second, relational description of the same paths (not a traversal): "there is a path from `n` down to an instance `p` of kind `kind`
+whose node matrices are `ms`" -/
+inductive Reach (kind : Kind) : SNode M P → List M → P → Prop
+  | inst (p : P) : Reach kind (.inst kind p) [] p
+  | ref {t : SNode M P} {ms : List M} {p : P} : Reach kind t ms p → Reach kind (.ref t) ms p
+  | node {m : M} {cs : List (SNode M P)} {c : SNode M P} {ms : List M} {p : P} :
+      c ∈ cs → Reach kind c ms p → Reach kind (.node m cs) (m :: ms) p
+
 /-- `((a * m₁) * m₂) * …` — the order in which the code multiplies -/
 def prodFrom (a : M) : List M → M
   | [] => a
